@@ -4,6 +4,7 @@ import (
 	"go/ast"
 	"go/token"
 	"sort"
+	"strconv"
 	"strings"
 )
 
@@ -70,6 +71,7 @@ func genNondetSites() {
 				}
 				name := pkgLabel(sc.dir) + "." + funcName(fd)
 				sites = append(sites, sitesOf(name, fd, fields, funcs)...)
+				sites = append(sites, errgroupSites(name, fd)...)
 			}
 		}
 	}
@@ -93,6 +95,76 @@ func genNondetSites() {
 	}
 	l.b.WriteString("def sites : List (String × String × String) := [" + strings.Join(rows, ",\n  ") + "]\n\n")
 	l.write()
+}
+
+// errgroupSites: a function that starts goroutines with <g>.Go and returns (or otherwise uses)
+// the result of <g>.Wait() gets the FIRST error IN TIME of its goroutines: which one that is
+// depends on scheduling.  One site per function, kind "errgroup-wait".
+func errgroupSites(name string, fd *ast.FuncDecl) []nondetSite {
+	goers := map[string]bool{}
+	ast.Inspect(fd.Body, func(n ast.Node) bool {
+		if c, ok := n.(*ast.CallExpr); ok {
+			if se, ok := c.Fun.(*ast.SelectorExpr); ok && se.Sel.Name == "Go" {
+				if id, ok := se.X.(*ast.Ident); ok {
+					goers[id.Name] = true
+				}
+			}
+		}
+		return true
+	})
+	if len(goers) == 0 {
+		return nil
+	}
+	// is every <g>.Go(…) statement directly followed, in its own block, by a statement that waits for g?
+	// then at most one goroutine of the group is in flight: the group runs them one after the other
+	sequential, waits := true, false
+	ast.Inspect(fd.Body, func(n ast.Node) bool {
+		if c, ok := n.(*ast.CallExpr); ok {
+			if se, ok := c.Fun.(*ast.SelectorExpr); ok && se.Sel.Name == "Wait" {
+				if id, ok := se.X.(*ast.Ident); ok && goers[id.Name] {
+					waits = true
+				}
+			}
+		}
+		bs, ok := n.(*ast.BlockStmt)
+		if !ok {
+			return true
+		}
+		for i, st := range bs.List {
+			es, ok := st.(*ast.ExprStmt)
+			if !ok {
+				continue
+			}
+			c, ok := es.X.(*ast.CallExpr)
+			if !ok {
+				continue
+			}
+			se, ok := c.Fun.(*ast.SelectorExpr)
+			if !ok || se.Sel.Name != "Go" {
+				continue
+			}
+			id, ok := se.X.(*ast.Ident)
+			if !ok || !goers[id.Name] {
+				continue
+			}
+			next := ""
+			if i+1 < len(bs.List) {
+				next = src(bs.List[i+1])
+			}
+			if !strings.Contains(strings.SplitN(next, "{", 2)[0], id.Name+".Wait()") {
+				sequential = false
+			}
+		}
+		return true
+	})
+	if !waits {
+		return nil
+	}
+	kind := "errgroup-wait"
+	if sequential {
+		kind = "errgroup-sequential"
+	}
+	return []nondetSite{{name, "errgroup.Go/Wait", kind}}
 }
 
 func leanStr(s string) string {
@@ -423,6 +495,277 @@ func genLoad() {
 		l.bool("edgesAddedInGoroutines", inGo)
 		l.bool("edgesAddedAfterWait", afterWait)
 	}
+	genHandDecoded(l, p)
+	genFirstError(l, r)
 	l.write()
 }
 
+// genHandDecoded: the mappings of taskfile/ast that are decoded by walking the YAML node
+// by hand (a loop stepping by two over node.Content) bypass yaml.v3's duplicate-key check;
+// for each such function: does the loop refuse a key used twice (an
+// `if err := duplicateKeyError(node, i); err != nil { return err }` before the first Set)?
+// And the skeleton of duplicateKeyError itself (locals and parameters as placeholders).
+func genHandDecoded(l *leanFile, p *pkgFiles) {
+	var rows [][2]string
+	for _, fd := range p.allFuncs() {
+		if fd.Body == nil || funcName(fd) == "duplicateKeyError" {
+			continue
+		}
+		ast.Inspect(fd.Body, func(n ast.Node) bool {
+			fs, ok := n.(*ast.ForStmt)
+			if !ok || fs.Post == nil {
+				return true
+			}
+			post, ok := fs.Post.(*ast.AssignStmt)
+			if !ok || post.Tok != token.ADD_ASSIGN || len(post.Lhs) != 1 || len(post.Rhs) != 1 || src(post.Rhs[0]) != "2" {
+				return true
+			}
+			iv := src(post.Lhs[0])
+			node := ""
+			ast.Inspect(fs.Body, func(m ast.Node) bool {
+				if ix, ok := m.(*ast.IndexExpr); ok && src(ix.Index) == iv && strings.HasSuffix(src(ix.X), ".Content") {
+					node = strings.TrimSuffix(src(ix.X), ".Content")
+				}
+				return true
+			})
+			if node == "" {
+				return true
+			}
+			status := "no-dupcheck"
+			checked := false
+			for _, st := range fs.Body.List {
+				if is, ok := st.(*ast.IfStmt); ok && is.Init != nil {
+					if as, ok := is.Init.(*ast.AssignStmt); ok && len(as.Rhs) == 1 && len(as.Lhs) == 1 &&
+						src(as.Rhs[0]) == "duplicateKeyError("+node+", "+iv+")" && src(is.Cond) == src(as.Lhs[0])+" != nil" &&
+						len(is.Body.List) == 1 && src(is.Body.List[0]) == "return "+src(as.Lhs[0]) {
+						checked = true
+					}
+				}
+				hasSet := false
+				ast.Inspect(st, func(m ast.Node) bool {
+					if c, ok := m.(*ast.CallExpr); ok {
+						if se, ok := c.Fun.(*ast.SelectorExpr); ok && se.Sel.Name == "Set" {
+							hasSet = true
+						}
+					}
+					return true
+				})
+				if hasSet {
+					if checked {
+						status = "dupcheck-before-set"
+					}
+					break
+				}
+			}
+			rows = append(rows, [2]string{funcName(fd), status})
+			return true
+		})
+	}
+	sort.Slice(rows, func(i, j int) bool { return rows[i][0] < rows[j][0] })
+	l.pairList("handDecodedMappings", rows)
+	var body []string
+	if fd := p.funcDecl("duplicateKeyError"); fd != nil {
+		locals := localsOf(fd)
+		if fd.Type.Params != nil {
+			for _, f := range fd.Type.Params.List {
+				for _, id := range f.Names {
+					locals[id.Name] = "‹p:" + src(f.Type) + "›"
+				}
+			}
+		}
+		ast.Inspect(fd.Body, func(n ast.Node) bool {
+			switch x := n.(type) {
+			case *ast.AssignStmt:
+				if x.Tok == token.DEFINE {
+					body = append(body, srcL(x, locals))
+				}
+			case *ast.ForStmt:
+				body = append(body, "for "+srcL(x.Init, locals)+"; "+srcL(x.Cond, locals)+"; "+srcL(x.Post, locals))
+				for _, st := range x.Body.List {
+					if as, ok := st.(*ast.AssignStmt); ok && as.Tok == token.DEFINE {
+						body = append(body, srcL(as, locals))
+					}
+					if is, ok := st.(*ast.IfStmt); ok {
+						// operands of && are printed sorted: their order carries no meaning
+						parts := strings.Split(srcL(is.Cond, locals), " && ")
+						sort.Strings(parts)
+						body = append(body, "if "+strings.Join(parts, " && "))
+						for _, rs := range is.Body.List {
+							if r, ok := rs.(*ast.ReturnStmt); ok && len(r.Results) == 1 {
+								if c, ok := r.Results[0].(*ast.CallExpr); ok {
+									body = append(body, "return "+strings.SplitN(srcL(c.Fun, locals), "(", 2)[0]+"(…)")
+								}
+							}
+						}
+					}
+				}
+				return false
+			case *ast.ReturnStmt:
+				body = append(body, srcL(x, locals))
+			}
+			return true
+		})
+	}
+	l.strList("duplicateKeyCheck", body)
+}
+
+
+// genFirstError: how Reader.Read chooses the error it reports (C09).
+//   readErrorBranch: the statements of the `if err := r.include(…); err != nil` block of Reader.Read;
+//   firstErrorWalk:  the skeleton of Reader.firstError: guards and returns in source order, the range
+//                    over the recorded includes, the recursive call;
+//   includeRecords:  in Reader.include, where the records are written: `result.err = …` after a failed
+//                    readNode, how many `return fail(err)` sites the goroutine has and how many plain
+//                    `return err` remain in it before the recursion, and the assignment of the location.
+// Locals are printed by placeholders.
+func genFirstError(l *leanFile, r *pkgFiles) {
+	var branch []string
+	if fd := r.funcDecl("Reader.Read"); fd != nil {
+		locals := localsOf(fd)
+		ast.Inspect(fd.Body, func(n ast.Node) bool {
+			is, ok := n.(*ast.IfStmt)
+			if !ok || is.Init == nil || !strings.Contains(src(is.Init), ".include(") || len(branch) > 0 {
+				return true
+			}
+			for _, st := range is.Body.List {
+				switch x := st.(type) {
+				case *ast.IfStmt:
+					branch = append(branch, "if "+srcL(x.Init, locals)+"; "+srcL(x.Cond, locals))
+					for _, st2 := range x.Body.List {
+						branch = append(branch, "  "+srcL(st2, locals))
+					}
+				default:
+					branch = append(branch, srcL(st, locals))
+				}
+			}
+			return false
+		})
+	}
+	l.strList("readErrorBranch", branch)
+	var walk []string
+	if fd := r.funcDecl("Reader.firstError"); fd != nil {
+		locals := localsOf(fd)
+		if fd.Type.Params != nil {
+			for k, f := range fd.Type.Params.List {
+				for _, id := range f.Names {
+					locals[id.Name] = "‹p" + strconv.Itoa(k) + "›"
+				}
+			}
+		}
+		var visit func(list []ast.Stmt, indent string)
+		visit = func(list []ast.Stmt, indent string) {
+			for _, st := range list {
+				switch x := st.(type) {
+				case *ast.IfStmt:
+					h := "if "
+					if x.Init != nil {
+						h += srcL(x.Init, locals) + "; "
+					}
+					parts := strings.Split(srcL(x.Cond, locals), " || ")
+					sort.Strings(parts)
+					walk = append(walk, indent+h+strings.Join(parts, " || "))
+					visit(x.Body.List, indent+"  ")
+				case *ast.RangeStmt:
+					walk = append(walk, indent+"range "+srcL(x.X, locals))
+					visit(x.Body.List, indent+"  ")
+				case *ast.ReturnStmt, *ast.BranchStmt, *ast.AssignStmt:
+					walk = append(walk, indent+srcL(st, locals))
+				}
+			}
+		}
+		visit(fd.Body.List, "")
+	}
+	l.strList("firstErrorWalk", walk)
+	var rec []string
+	if fd := r.funcDecl("Reader.include"); fd != nil {
+		failSites, plainBefore, afterRec := 0, 0, 0
+		recursed := false
+		ast.Inspect(fd.Body, func(n ast.Node) bool {
+			switch x := n.(type) {
+			case *ast.AssignStmt:
+				if len(x.Lhs) == 1 && len(x.Rhs) == 1 {
+					lhs := src(x.Lhs[0])
+					if strings.HasSuffix(lhs, ".err") && !strings.Contains(lhs, "[") {
+						rec = append(rec, "file-error-recorded-after:"+prevCall(fd, x))
+					}
+					if strings.HasSuffix(lhs, "].location") {
+						rec = append(rec, "location-recorded:"+strings.SplitN(src(x.Rhs[0]), ".", 2)[1])
+					}
+				}
+			case *ast.FuncLit:
+				// the goroutine body: the literal handed to <g>.Go
+				if !strings.Contains(src(x), ".include(") {
+					return true
+				}
+				ast.Inspect(x.Body, func(m ast.Node) bool {
+					switch y := m.(type) {
+					case *ast.FuncLit:
+						return m == ast.Node(x.Body) // do not descend into nested literals (fail itself)
+					case *ast.AssignStmt:
+						if len(y.Lhs) == 1 && len(y.Rhs) == 1 && strings.HasSuffix(src(y.Lhs[0]), "].location") && !recursed {
+							rec = append(rec, "location-recorded-before-recursion:"+strings.SplitN(src(y.Rhs[0]), ".", 2)[1])
+						}
+					case *ast.CallExpr:
+						if se, ok := y.Fun.(*ast.SelectorExpr); ok && se.Sel.Name == "include" {
+							recursed = true
+						}
+					case *ast.ReturnStmt:
+						if len(y.Results) == 1 {
+							switch s := src(y.Results[0]); {
+							case strings.HasPrefix(s, "fail("):
+								failSites++
+							case s != "nil" && !recursed:
+								plainBefore++
+							case s != "nil":
+								afterRec++
+							}
+						}
+					}
+					return true
+				})
+				return false
+			}
+			return true
+		})
+		rec = append(rec, "goroutine:fail-returns="+strconv.Itoa(failSites), "goroutine:unrecorded-error-returns-before-recursion="+strconv.Itoa(plainBefore),
+			"goroutine:error-returns-from-recursion-on="+strconv.Itoa(afterRec))
+	}
+	l.strList("includeRecords", rec)
+}
+
+// prevCall: the callee of the last assignment from a call that precedes st in the same block of fd.
+func prevCall(fd *ast.FuncDecl, st ast.Stmt) string {
+	out := ""
+	ast.Inspect(fd.Body, func(n ast.Node) bool {
+		bs, ok := n.(*ast.BlockStmt)
+		if !ok {
+			return true
+		}
+		for _, s := range bs.List {
+			found := false
+			ast.Inspect(s, func(m ast.Node) bool {
+				if m == ast.Node(st) {
+					found = true
+				}
+				return !found
+			})
+			if found && out == "" {
+				// look back in the enclosing function for the latest call assignment before st
+				last := ""
+				ast.Inspect(fd.Body, func(m ast.Node) bool {
+					if as, ok := m.(*ast.AssignStmt); ok && as.Pos() < st.Pos() && len(as.Rhs) == 1 {
+						if c, ok := as.Rhs[0].(*ast.CallExpr); ok {
+							if se, ok := c.Fun.(*ast.SelectorExpr); ok {
+								last = se.Sel.Name
+							}
+						}
+					}
+					return true
+				})
+				out = last
+			}
+		}
+		return true
+	})
+	return out
+}
